@@ -70,9 +70,11 @@ def generate(rng, tier):
                 plan["conflict"][f["name"]] = tdsl.gen_value(rng, t, pool, positions, (f["name"] + "'",))
     # dependencies: some fields demand that an optional plain field is given as well
     opt_names = [f["name"] for f in fields if not f["required"] and not f.get("disc")]
+    any_names = [f["name"] for f in fields if not f.get("disc")]
     for f in fields:
         if opt_names and rng.random() < 0.2:
-            d = rng.choice(opt_names)
+            # (one time in four the field it depends on may be a required one)
+            d = rng.choice(any_names if rng.random() < 0.25 else opt_names)
             if d != f["name"]:
                 f["deps"] = [d]
     plan["fields"] = fields
@@ -98,6 +100,25 @@ def generate(rng, tier):
         if rng.random() < 0.4:
             pt3 = tdsl.gen_scalar(rng, rule_leaves=RL)
             plan["pprop"]["third"] = {"type": pt3, "value": tdsl.gen_value(rng, pt3, pool, positions, ("pr3",))}
+            if rng.random() < 0.6:
+                pt4 = tdsl.gen_scalar(rng, rule_leaves=RL)
+                plan["pprop"]["fourth"] = {"type": pt4, "value": tdsl.gen_value(rng, pt4, pool, positions, ("pr4",))}
+                if rng.random() < 0.5:
+                    plan["max_errors"] = 2      # (three outputs that may fail and a cap below that)
+                    plan["pprop"]["all_fail"] = rng.random() < 0.6
+    if kind != "func" and not plan.get("pprop") and plan["addition"] != "leaf" and rng.random() < 0.25 \
+            and '"dict"' not in kernel.jdump([f["type"] for f in fields]):
+        # (the policy also applies to the values of mappings nested in a field: such types are left out here)
+        # Options(invalid_values='exclude'): a field that is not required and does not parse is left out (no error); a
+        # required one is still refused and reported
+        plan["exclude"] = True
+        reqs = [f for f in fields if f["required"] and not f.get("disc") and f["name"] in inp]
+        others = [f for f in fields if f["name"] in inp and not f.get("deps")]
+        if reqs and len(others) > 1 and rng.random() < 0.6:
+            # ... and a field that depends on a required one: refused is not the same as left out
+            d = rng.choice(reqs)
+            f = rng.choice([x for x in others if x is not d])
+            f["deps"] = [d["name"]]
     if kind == "func":
         plan["addition"] = rng.choice([None, "leaf"])   # **kwargs: Leaf or none
         # the type of the surplus positional values: a harness leaf or a constrained (Rule) leaf
@@ -125,6 +146,13 @@ def generate(rng, tier):
         for path, lk, pid in positions:
             if rng.random() < p:
                 fl[str(faults.fault_id(faults.LEAF_TYPES[lk], pid))] = rng.choice(faults.EXC_NAMES)
+    if (plan.get("pprop") or {}).get("all_fail"):
+        # every input item is fine and every typed output fails: more failing items than the cap allows
+        fl = {}
+        for path, lk, pid in positions:
+            if path and path[0] in ("pr", "pr3", "pr4"):
+                fl[str(faults.fault_id(faults.LEAF_TYPES[lk], pid))] = rng.choice(faults.EXC_NAMES)
+        plan["drop"], plan["conflict"] = [], {}
     plan["faults"] = {"leaf": fl}
     return plan
 
@@ -141,6 +169,8 @@ def build(plan, collect, faulted=True):
         okw["data_first_search"] = plan["dfs"]
     if plan.get("ignore_constraints"):
         okw["ignore_constraints"] = True
+    if plan.get("exclude"):
+        okw["invalid_values"] = "exclude"
     if plan.get("max_params"):
         okw["max_params"] = plan["max_params"]
     kind = plan["kind"]
@@ -188,6 +218,14 @@ def build(plan, collect, faulted=True):
                     return tdsl.build_value(pv3)
                 pr3.__annotations__ = {"return": PT3}
                 ns["pr3"] = property(pr3)
+            if plan["pprop"].get("fourth"):
+                PT4 = tdsl.build_type(plan["pprop"]["fourth"]["type"])
+                pv4 = plan["pprop"]["fourth"]["value"]
+
+                def pr4(self) -> PT4:
+                    return tdsl.build_value(pv4)
+                pr4.__annotations__ = {"return": PT4}
+                ns["pr4"] = property(pr4)
             if plan["pprop"].get("hook"):
                 # the user's __validate__ reads the property: it only ever runs on an instance that parsed
                 def __validate__(self):
@@ -292,13 +330,18 @@ def ground_truth(plan, stats):
     G = set()
     value = tdsl.build_value(plan["input"])
     ftypes = {f["name"]: f for f in plan["fields"]}
+    EXCL = set()     # under invalid_values='exclude': fields that are not required and do not parse are left out, not reported
     for name, v in value.items():
         if _item_fails(ftypes[name]["type"], v):
-            G.add(name)
+            if plan.get("exclude") and not ftypes[name]["required"]:
+                EXCL.add(name)
+            else:
+                G.add(name)
     for name, vx in (plan.get("conflict") or {}).items():
         # two spellings with different values: the item is rejected whatever the values are
         if name in value and tdsl.build_value(vx) != value[name]:
             G.add(name)
+            EXCL.discard(name)      # (reported as a conflict: none of its values is looked at, so it is not "left out")
             stats["probe:alias_conflict"] += 1
     for f in plan["fields"]:
         if f["required"] and f["name"] not in plan["input"]:
@@ -338,7 +381,8 @@ def ground_truth(plan, stats):
                 OPTIONAL.add("<deps>")
             continue
         if f["name"] not in G:
-            if any(d not in value for d in f["deps"]):
+            if any(d not in value or d in EXCL for d in f["deps"]):
+                # (a dependency that was left out by the 'exclude' policy counts as not given)
                 G.add("<deps>")
                 stats["probe:dependency_missing"] += 1
             # (a dependency that is given but invalid is reported itself: it is not absent, the dependant has nothing to add)
@@ -349,6 +393,8 @@ def ground_truth(plan, stats):
     if not (G - {"pr"}) and plan.get("pprop") and plan["pprop"].get("third") and _item_fails(plan["pprop"]["third"]["type"], tdsl.build_value(plan["pprop"]["third"]["value"])):
         # (fail-fast stops at the first failing output; collecting names both)
         G.add("pr3")
+    if not (G - {"pr", "pr3"}) and plan.get("pprop") and plan["pprop"].get("fourth") and _item_fails(plan["pprop"]["fourth"]["type"], tdsl.build_value(plan["pprop"]["fourth"]["value"])):
+        G.add("pr4")
     return G
 
 
